@@ -124,6 +124,52 @@ Example C06_detect_by_alignment_example :
   detect_by_alignment current_rules reference 3 variants 2 cig query = Some [(1, 1, 30)].
 Proof. vm_compute. repeat split; repeat constructor. Qed.
 
+(* restricted_genotypes (haplotagphase passes the sample's genotype of each variant): under the hypotheses of
+   C06_realign_correct, re-alignment restricted to ANY genotype that contains the carried allele -- heterozygous,
+   homozygous for it, polyploid -- still reports the carried allele.  (Model: realign_restricted; a missing genotype
+   [] reports nothing; without restriction the restricted functions are the unrestricted ones, read_set_r_none.) *)
+Theorem C06_realign_restricted_correct :
+  forall (R : rules) (reference query : list Z) (overhang : nat) (v : variant) (cig : cigar)
+         (i consumed qpos : nat) (op : cop) (len : nat) (pre LM V RM post : list cop)
+         (r1 WL WR r2 q1 q2 : list Z) (carried : nat) (g : list nat),
+  0 < overhang -> positive_lengths cig ->
+  nth_error cig i = Some (op, len) -> consumed <= len ->
+  firstn (unit_index cig i consumed) (expand cig) = pre ++ LM ->
+  skipn (unit_index cig i consumed) (expand cig) = V ++ RM ++ post ->
+  forallb is_match LM = true -> forallb is_match RM = true -> forallb is_aligned V = true ->
+  carried <= 1 ->
+  ref_units V = length (vref v) -> query_units V = length (get_allele v carried) ->
+  (overhang <= length LM \/ window_end R (rev pre)) ->
+  (overhang <= length RM \/ window_end R post) ->
+  reference = r1 ++ WL ++ vref v ++ WR ++ r2 -> vpos v = length r1 + length WL ->
+  query = q1 ++ WL ++ get_allele v carried ++ WR ++ q2 ->
+  length WL = length LM -> length WR = length RM ->
+  length q1 = query_units pre -> qpos = query_units (pre ++ LM) ->
+  vref v <> valt v -> is_symbolic v = false ->
+  In carried g ->
+  realign_restricted R reference overhang v cig query i consumed qpos (Some g) = Some (Some carried).
+Proof. exact realign_restricted_correct. Qed.
+Print Assumptions C06_realign_restricted_correct.
+
+Theorem C06_read_set_unrestricted :
+  forall R reference overhang mapq use_supp dup threshold variants alns,
+  read_set_r R reference overhang mapq use_supp dup threshold variants None alns
+  = read_set R reference overhang mapq use_supp dup threshold variants alns.
+Proof. exact read_set_r_none. Qed.
+Print Assumptions C06_read_set_unrestricted.
+
+(* non-vacuity: the insertion of C06_realign_example restricted to 1/1, 0/1 and a missing genotype; a symbolic record *)
+Example C06_realign_restricted_example :
+  let reference := [1;2;3;4;1;2;4;3;1;2;3;3]%Z in
+  let v := mkVar 5 [2]%Z [2;9;9]%Z in
+  let cig := [(OpS, 1); (OpM, 4); (OpI, 2); (OpM, 4)] in
+  let query := [7; 3;4;1; 2;9;9; 4;3;1;2]%Z in
+  realign_restricted current_rules reference 3 v cig query 1 3 4 (Some [1; 1]) = Some (Some 1) /\
+  realign_restricted current_rules reference 3 v cig query 1 3 4 (Some [0; 1]) = Some (Some 1) /\
+  realign_restricted current_rules reference 3 v cig query 1 3 4 (Some []) = Some None /\
+  realign_restricted current_rules reference 3 (mkVar 5 [2]%Z [60;68;69;76;62]%Z) cig query 1 3 4 (Some [0; 1]) = Some None.
+Proof. vm_compute. repeat split; reflexivity. Qed.
+
 (* The same statement with reference skips (N) allowed as window ends -- i.e. with `window_end repaired_rules` in the
    hypotheses -- is AlleleDetect.realign_correct_with_skips_statement R.  It holds for the code as it is now
    (current_rules; skip rule repaired by fix 8735279) and was refuted by the code as it was (original_rules):
